@@ -227,6 +227,8 @@ def run(ctx):
             k = l.split()[0]
             cross[k] = cross.get(k, 0) + 1
     ctx.cov['traces_validated_against_impl'] = agreed
+    if ctx.tier == 'thorough':
+        ctx.cov['line_coverage_of_modelled_code'] = pw.uncovered_lines(ctx, os.path.join(vlib.VERIF, 'harness/h_pack.c'), [vlib.REPO + '/librfn/pack.c'], hs)
     ctx.cov['ops_histogram'] = cross
     ctx.cov['ops_total'] = sum(len(h) for h in hs)
     ctx.cov['buffer_sizes'] = '0..40, every crossing position 0..n for each'
